@@ -95,6 +95,8 @@ type Op struct {
 	// SDK v1 has none the fake implements): Items holds all pages, Count the number of pages, at most MaxPages
 	Paginate bool `json:"paginate,omitempty"`
 	MaxPages int  `json:"maxpages,omitempty"`
+	// EmptyTables: BatchWriteItem entries "table: []" (a table named with an empty request list)
+	EmptyTables []string `json:"emptytables,omitempty"`
 	// CondSet: send ConditionExpression even when Cond is empty or blank (a pointer to that text, not nil)
 	CondSet bool `json:"condset,omitempty"`
 	// DoneCtx: make the call with a context that is already done ("cancelled", "expired")
